@@ -8,6 +8,7 @@ import (
 
 	proxylisters "github.com/kubewharf/kubegateway/pkg/client/listers/proxy/v1alpha1"
 	"github.com/kubewharf/kubegateway/pkg/clusters"
+	"github.com/kubewharf/kubegateway/pkg/syncqueue"
 )
 
 // VerifC11NewController builds an UpstreamClusterController around a lister backed by the given indexer and a
@@ -26,3 +27,16 @@ func (m *UpstreamClusterController) VerifC11Sync(obj interface{}) (requeue bool,
 	res, err := m.syncUpstreamCluster(obj)
 	return res.Requeue || res.RequeueAfter > 0, err
 }
+
+// VerifC11Instrument prepares a controller built by the public NewUpstreamClusterController for being driven through
+// its real Run loop: the lister is replaced by wrapLister(lister) (the harness holds one Get back once, i.e. pins a
+// descheduling point between lister.Get and ClusterInfo.Sync) and the queue's handler by wrapHandler(handler).
+// Must be called before Run.
+func (m *UpstreamClusterController) VerifC11Instrument(wrapLister func(proxylisters.UpstreamClusterLister) proxylisters.UpstreamClusterLister,
+	wrapHandler func(syncqueue.SyncHandler) syncqueue.SyncHandler) {
+	m.lister = wrapLister(m.lister)
+	m.queue.VerifC11WrapHandler(wrapHandler)
+}
+
+// VerifC11QueueLen is the number of items waiting in the controller's work queue.
+func (m *UpstreamClusterController) VerifC11QueueLen() int { return m.queue.Queue().Len() }
